@@ -86,7 +86,7 @@ func sortNPMVersions(vs []Version) {
 		} else {
 			allPrerelease = false
 		}
-		if tags, _ := v.GetAttr(version.Tags); strings.Contains(tags, "latest") {
+		if tags, _ := v.GetAttr(version.Tags); hasTag(tags, "latest") {
 			latestIdx = i
 			latestIsPrerelease = vers[v.VersionKey] != nil && vers[v.VersionKey].IsPrerelease()
 		}
@@ -99,6 +99,16 @@ func sortNPMVersions(vs []Version) {
 		copy(vs[latestIdx:], vs[latestIdx+1:])
 		vs[len(vs)-1] = latest
 	}
+}
+
+// hasTag reports whether the comma separated list of tags holds the tag.
+func hasTag(tags, tag string) bool {
+	for _, t := range strings.Split(tags, ",") {
+		if t == tag {
+			return true
+		}
+	}
+	return false
 }
 
 // SortDependencies sorts a set of dependencies in a system-specific order for
